@@ -109,13 +109,34 @@ class History(object):
         if not cands:
             return False
         i = self.rng.choice(cands)
-        line = self.rng.choice(['REM inserted remark', 'BOND $H', 'CONF', 'HTAB', 'OMIT 1 2 3', 'SIMU 0.04 0.08 1.7'])
+        line = self.rng.choice(['REM inserted remark', 'BOND $H', 'CONF', 'HTAB', 'OMIT 1 2 3', 'SIMU 0.04 0.08 1.7',
+                                # several instructions in one call (as insert_frag_fend_entry does): they must stay in the order given
+                                'REM first of a block\nDFIX 1.5 C1 C2\nREM third of a block\nDANG 2.5 C1 C3', 'EQIV $7 -x, -y, -z\nHTAB C1 O1_$7'])
         obj = self.ents[i].obj
         idx = shx.index_of(obj) if not isinstance(obj, str) else i
         shx.add_line(idx, line)
-        self.mops.append(('ins', idx + 1, [line], True))
-        self.ents.insert(i + 1, Entry(line, [line.split()], False, 'inserted', False))
+        if '\n' in line:
+            self.mops.append(('ins', idx + 1, line.split('\n'), False))
+        else:
+            self.mops.append(('ins', idx + 1, [line], True))
+        self.ents.insert(i + 1, Entry(line, [l.split() for l in line.split('\n')], False, 'inserted', False))
         self.log.append(('add_line', idx, line))
+        return True
+
+    def op_frag(self):
+        """insert_frag_fend_entry: a FRAG ... FEND block right behind the (first) FVAR line"""
+        shx = self.shx
+        i = find_entry(self.ents, shx.fvars)
+        if i is None or getattr(self, 'frag_done', False):
+            return False
+        self.frag_done = True
+        dbatoms = [['O1', 3, 0.1, 0.2, 0.3], ['C1', 1, 0.25, 0.35, 0.45], ['C2', 1, -0.1, 0.55, 0.65]]
+        cell = [1, 1, 1, 90, 90, 90]
+        shx.insert_frag_fend_entry(dbatoms, cell)
+        lines = [['FRAG', '17'] + [str(c) for c in cell]] + [[str(v) for v in a] for a in dbatoms] + [['FEND']]
+        self.mops.append(('skip',))
+        self.ents.insert(i + 1, Entry('frag block', lines, False, 'inserted', False))
+        self.log.append(('insert_frag_fend_entry',))
         return True
 
     def op_insert_anis(self):
@@ -140,7 +161,8 @@ class History(object):
             return None
         a = self.rng.choice(ats)
         names = [x.fullname.upper() for x in ats]
-        if names.count(a.fullname.upper()) == 1 and len([e for e in self.ents if e.kind == 'atom' and e.obj.fullname.upper() == a.fullname.upper()]) == 1:
+        # reached by name half of the time, else by iteration over the atom list (which does not touch the cached name index)
+        if self.rng.random() < 0.5 and names.count(a.fullname.upper()) == 1 and len([e for e in self.ents if e.kind == 'atom' and e.obj.fullname.upper() == a.fullname.upper()]) == 1:
             found = self.shx.atoms.get_atom_by_name(a.fullname)
             if found is not a:
                 raise LookupMismatch('atom %s of the file is not what the atom list returns for that name (%s)' % (a.fullname, getattr(found, 'fullname', None)))
@@ -307,7 +329,7 @@ class History(object):
             self.log.append(('restore_acta',))
         return True
 
-    OPS = ['add_line', 'insert_anis', 'delete_atom', 'rename', 'element', 'isotropic', 'plan', 'cycles', 'wght', 'acta']
+    OPS = ['add_line', 'insert_anis', 'delete_atom', 'rename', 'element', 'isotropic', 'plan', 'cycles', 'wght', 'acta', 'frag']
 
     def step(self, name=None):
         name = name or self.rng.choice(self.OPS)
